@@ -173,6 +173,11 @@ def make_types(rng):
                     ["str", S(encname), str(w), "-", "-", "1", "-", "-", "-", bo]], w, ens))
     add(PT("BIN24_T", ["pt", S("BIN24_T"), "plain", ["bin", "24", "-", "1", "-", "-"]], 24, lambda rng, c=None: rbits(rng, 24)))
     add(PT("BIN5_T", ["pt", S("BIN5_T"), "plain", ["bin", "5", "-", "1", "-", "-"]], 5, lambda rng, c=None: rbits(rng, 5)))
+    # binary fields of more than one byte that are not a whole number of bytes
+    add(PT("BIN12_T", ["pt", S("BIN12_T"), "plain", ["bin", "12", "-", "1", "-", "-"]], 12,
+           lambda rng, c=None: "1" + rbits(rng, 10) + "1"))
+    add(PT("BIN20_T", ["pt", S("BIN20_T"), "plain", ["bin", "20", "-", "1", "-", "-"]], 20,
+           lambda rng, c=None: "1" + rbits(rng, 18) + "1"))
     # binary fields longer than four bytes (a dataset column must hold them whole)
     add(PT("BIN64_T", ["pt", S("BIN64_T"), "plain", ["bin", "64", "-", "1", "-", "-"]], 64,
            lambda rng, c=None: "".join(f"{rng.randrange(1, 256):08b}" for _ in range(8))))
